@@ -51,6 +51,7 @@ pub fn classify(e: &decode::Error) -> String {
     if e.is_unknown_variant() { return format!("variant:{}", cut(&d, "unknown enum variant ")) }
     if e.is_missing_value() { return format!("missing:{}", cut(&d, "missing value at index ")) }
     if e.is_message() { return "message".into() }
+    #[cfg(any(not(feature = "cfgmatrix"), feature = "alloc"))]
     if e.is_custom() { return "custom".into() }
     if d.starts_with("invalid char ") {
         let h = cut(&d, "invalid char ");
